@@ -2,6 +2,8 @@ import GridVerif.Model.Proto
 import GridVerif.Model.Elem
 import GridVerif.Model.Moments
 import GridVerif.Gen.Moments
+import GridVerif.Model.MomentsNum
+import GridVerif.Gen.MomentsNum
 
 namespace GridVerif.Driver.C14
 open GridVerif.Proto GridVerif.Moments
@@ -24,6 +26,19 @@ open GridVerif.Proto GridVerif.Moments
   C14.gen-degree  <ivec orders>                        -> ok <int> | error tag
   C14.gen-indices <arr>                                -> ok <ivec> | error tag
   arr := 1 <ivec>  |  2 <imat>
+
+  the generated numeric programs (Gen/MomentsNum.lean), run as they are (round 3):
+  C14.gen-moments <type-string | default> <L:int> <type name of orders> <0 | 1 | default : return_orders>
+                  <ivec points.shape> <fmat point rows> <fvec weights> <ivec centers.shape> <fmat centres>
+                  <ivec func_vals.shape> <fvec f> <ntabs> <fmat tab>…
+                                                        -> ok <fmat values> (0 | 1 <arr>) | error tag
+                  (the tables are `solid_harmonics(L, sph(points - centre))` per centre, from the library;
+                   `convert_cart_to_sph` rejects points that are not three-dimensional, as the library does)
+  C14.gen-integrate <size:int> <fvec weights> <nargs> (nd <ivec shape> <fvec data> | other)…  -> ok <float> | error tag
+  C14.gen-mass <Z:int>                                 -> ok <float> | key-error
+  C14.gen-dipole <ivec points.shape> <fmat points> <fvec weights> <fvec density> <fmat coords> <ivec charges>
+                                                        -> ok <fvec> | error tag
+  C14.gen-multidomain <L:int> <type-string | default> <0 | 1 | default>   -> not-implemented-error
 -/
 
 def pType : String → Option MomType
@@ -37,6 +52,10 @@ def sErr : Err → String
   | .valueError => "value-error"
   | .typeError => "type-error"
   | .indexError => "index-error"
+  | .keyError => "key-error"
+  | .unboundLocalError => "unbound-local-error"
+  | .notImplementedError => "not-implemented-error"
+  | .attributeError => "attribute-error"
 
 def sArr : IntArr → String
   | .d1 v => "1 " ++ sInts v
@@ -57,6 +76,92 @@ def pTabs : Nat → List String → Option (List (List (List Float)) × List Str
     let (t, rest) ← pMat pFloat toks
     let (ts, rest) ← pTabs k rest
     pure (t :: ts, rest)
+
+/-- `convert_cart_to_sph` as far as the moments need it: it rejects points that are not `(N, 3)`; the
+spherical coordinates themselves only travel on to `solid_harmonics`, so the centred points are handed on. -/
+def sphOracle (pts : List (List Float)) : Except Err (List (List Float)) :=
+  if pts.all (fun p => p.length == 3) then .ok pts else .error .valueError
+
+/-- `solid_harmonics(deg, sph(points - centre))`: the table the library computed for that centre. -/
+def solidOracle (points centres : List (List Float)) (tabs : List (List (List Float))) (_deg : Int)
+    (cp : List (List Float)) : Except Err (List (List Float)) :=
+  match (centres.zip tabs).find? (fun ct => (points.map fun p => vsub p ct.1) == cp) with
+  | some ct => .ok ct.2
+  | none => .error .keyError
+
+def pArgs : Nat → List String → Option (List (PyArg Float) × List String)
+  | 0, rest => some ([], rest)
+  | k + 1, "other" :: rest => do
+    let (as, rest) ← pArgs k rest
+    pure (.other :: as, rest)
+  | k + 1, "nd" :: rest => do
+    let (sh, rest) ← pVec pInt rest
+    let (d, rest) ← pVec pFloat rest
+    let (as, rest) ← pArgs k rest
+    pure (.ndarray sh d :: as, rest)
+  | _, _ => none
+
+def pRet (dflt : Bool) : String → Option Bool
+  | "0" => some false
+  | "1" => some true
+  | "default" => some dflt
+  | _ => none
+
+def handleNum : List String → Option String
+  | "C14.gen-moments" :: ty :: L :: otype :: ret :: rest => do
+    let ty := if ty == "default" then Gen.MomentsNum.gridMomentsDefaultTypeMom else ty
+    let L ← pInt L
+    let ret ← pRet Gen.MomentsNum.gridMomentsDefaultReturnOrders ret
+    let (ps, rest) ← pVec pInt rest
+    let (pts, rest) ← pMat pFloat rest
+    let (w, rest) ← pVec pFloat rest
+    let (cs, rest) ← pVec pInt rest
+    let (cen, rest) ← pMat pFloat rest
+    let (fs, rest) ← pVec pInt rest
+    let (f, rest) ← pVec pFloat rest
+    let nt ← rest.head?.bind pNat
+    let (tabs, rest) ← pTabs nt (rest.drop 1)
+    if rest ≠ [] then none else
+    match Gen.MomentsNum.gridMoments sphOracle (solidOracle pts cen tabs) ps pts w L otype cs cen fs f ty ret with
+    | .ok (vals, none) => pure s!"ok {sMat sFloat vals} 0"
+    | .ok (vals, some a) => pure s!"ok {sMat sFloat vals} 1 {sArr a}"
+    | .error e => pure (sErr e)
+  | "C14.gen-integrate" :: size :: rest => do
+    let size ← pInt size
+    let (w, rest) ← pVec pFloat rest
+    let n ← rest.head?.bind pNat
+    let (args, rest) ← pArgs n (rest.drop 1)
+    if rest ≠ [] then none else
+    match Gen.MomentsNum.gridIntegrate size w args with
+    | .ok v => pure ("ok " ++ sFloat v)
+    | .error e => pure (sErr e)
+  | ["C14.gen-mass", z] => do
+    let z ← pInt z
+    match pyDictGet (Gen.MomentsNum.isotopic_masses (K := Float)) z with
+    | .ok v => pure ("ok " ++ sFloat v)
+    | .error e => pure (sErr e)
+  | "C14.gen-dipole" :: rest => do
+    let (ps, rest) ← pVec pInt rest
+    let (pts, rest) ← pMat pFloat rest
+    let (w, rest) ← pVec pFloat rest
+    let (dens, rest) ← pVec pFloat rest
+    let (coords, rest) ← pMat pFloat rest
+    let (charges, rest) ← pVec pInt rest
+    if rest ≠ [] then none else
+    let gm := fun (o : Int) (ot : String) (cen : List (List Float)) (f : List Float) (ty : String) (ret : Bool) =>
+      Gen.MomentsNum.gridMoments sphOracle (fun _ _ => .error .keyError) ps pts w o ot
+        [(cen.length : Int), ((cen.headD []).length : Int)] cen [(f.length : Int)] f ty ret
+    match Gen.MomentsNum.dipoleMomentOfMolecule gm dens coords charges with
+    | .ok v => pure ("ok " ++ sFloats v)
+    | .error e => pure (sErr e)
+  | ["C14.gen-multidomain", L, ty, ret] => do
+    let L ← pInt L
+    let ty := if ty == "default" then Gen.MomentsNum.multiDomainGridMomentsDefaultTypeMom else ty
+    let ret ← pRet Gen.MomentsNum.multiDomainGridMomentsDefaultReturnOrders ret
+    match Gen.MomentsNum.multiDomainGridMoments L [] [] ty ret with
+    | .ok _ => pure "ok"
+    | .error e => pure (sErr e)
+  | _ => none
 
 def handle : List String → Option String
   | ["C14.horton", ty, dim, l] => do
@@ -145,6 +250,6 @@ def handle : List String → Option String
     match Gen.Moments.momentsPureRadialIndices a with
     | .ok idx => pure ("ok " ++ sInts idx)
     | .error e => pure (sErr e)
-  | _ => none
+  | toks => handleNum toks
 
 end GridVerif.Driver.C14
